@@ -24,6 +24,10 @@ def cases():
         C.append(('channel-%s-c0' % pub, dict(kind='channel', down=3, up=1, pub=pub, cancel_after=0, credit='max',
                                               ending='flag' if pub != 'manual' else 'complete')))
         C.append(('channel-%s-c1' % pub, dict(kind='channel', down=3, up=0, pub=pub, cancel_after=1, credit='one', ending='flag')))
+    for pub in ('rx3', 'rx4', 'rx3bp', 'rx4bp'):
+        C.append(('stream-%s-c0' % pub, dict(kind='stream', down=3, pub=pub, cancel_after=0, credit='max', ending='complete')))
+        C.append(('stream-%s-c1' % pub, dict(kind='stream', down=3, pub=pub, cancel_after=1, credit='one', ending='complete')))
+        C.append(('channel-%s-c1' % pub, dict(kind='channel', down=3, up=0, pub=pub, cancel_after=1, credit='one', ending='complete')))
     return C
 
 
